@@ -233,19 +233,13 @@ def viewOfPairs (l : List (Cps × Cps)) : Dict := dictOf (uniqByUri l.reverse []
 
 def view (s : Sheet) : Dict := viewOfPairs (nsPairs s)
 
-/-! ### URIs "used" according to `Selector._getUsedUris` (`selector.py:623-635`) and `_getUsedURIs`
-(`cssstylesheet.py:119-129`); only the strings in the set matter because the set is only ever asked
-`rule.namespaceURI in useduris`.
-`type_.endswith('-selector') or type_ == 'universal' and isinstance(val, tuple) and val[0] not in (None, '*')`
-— so for the three `-selector` types `val[0]` is added whatever `val` is: for a bare attribute name that is its
-first character. -/
+/-! ### URIs "used" according to `Selector._getUsedUris` (`selector.py:623-634`) and `_getUsedURIs`
+(`cssstylesheet.py:119-129`):
+`(type_.endswith('-selector') or type_ == 'universal') and isinstance(val, tuple) and val[0] not in (None, _ANYNS)`
+— the URI strings (`''` included) of all qualified names. -/
 def itemUsed : Item → List Cps
-  | .q .universal (.uri u) _ => if u = star then [] else [u]
   | .q _ (.uri u) _ => [u]
-  | .q _ _ _ => []
-  | .bareAttr (c :: _) => [[c]]
-  | .bareAttr [] => []
-  | .other _ _ => []
+  | _ => []
 
 def selsUsed (sels : List Sel) : List Cps := (sels.map fun s => (s.map itemUsed).flatten).flatten
 
@@ -360,11 +354,42 @@ def insertStyle (s : Sheet) (r : Rule) (idx : Option Nat) (inOrder : Bool) : She
   else if (s.drop index0).any Rule.isHead then (s, .err .hierarchyRequestErr)
   else (insertAt s index0 r, .ok (some index0))
 
-/-! ## `CSSNamespaceRule._setPrefix` (`cssnamespacerule.py:268-302`)
-`for i, x in enumerate(self._seq): if x == self._prefix` compares an `Item` object with a string and never
-matches, so the `else` branch always runs: `self._seq[0] = (prefix, 'prefix', None, None)`. -/
+/-! ## `CSSNamespaceRule._setPrefix` (`cssnamespacerule.py:268-316`)
+The seq is updated: the (first) item of type `prefix` is replaced; a rule that has none gets one in front of
+its `namespaceURI` item (at the very front if it had no such item either). -/
+def SeqItem.isPfx : SeqItem → Bool
+  | .pfx _ => true
+  | _ => false
+
+def SeqItem.isUri : SeqItem → Bool
+  | .uri _ => true
+  | _ => false
+
+def replaceFirstPfx (q : Cps) : List SeqItem → List SeqItem
+  | [] => []
+  | .pfx _ :: t => .pfx q :: t
+  | x :: t => x :: replaceFirstPfx q t
+
+def insertBeforeUri (q : Cps) : List SeqItem → List SeqItem
+  | [] => []
+  | .uri u :: t => .pfx q :: .uri u :: t
+  | x :: t => x :: insertBeforeUri q t
+
 def NsRule.setPrefix (r : NsRule) (q : Cps) : NsRule :=
-  { r with pfx := q, seq := r.seq.set 0 (.pfx q) }
+  { r with pfx := q,
+           seq := if r.seq.any SeqItem.isPfx then replaceFirstPfx q r.seq
+                  else if r.seq.any SeqItem.isUri then insertBeforeUri q r.seq
+                  else .pfx q :: r.seq }
+
+/-- `_setPrefix` on a rule that is in a sheet refuses a prefix that another @namespace rule of the sheet carries
+(`cssnamespacerule.py:293-303`): is there such a rule, other than the one at index `i`? -/
+def anyNsPfx (q : Cps) (s : Sheet) : Bool :=
+  s.any fun r => match r with
+    | .ns n => decide (n.pfx = q)
+    | _ => false
+
+def prefixTaken (s : Sheet) (i : Nat) (q : Cps) : Bool :=
+  anyNsPfx q (s.take i) || anyNsPfx q (s.drop (i + 1))
 
 /-- index and value of the last @namespace rule with prefix `p` (`_Namespaces.__findrule`, `util.py:810-818`) -/
 def findLastNs (p : Cps) : List Rule → Option (Nat × NsRule)
@@ -391,7 +416,9 @@ def setNs (s : Sheet) (p u : Cps) : Sheet × Outcome :=
     -- `if prefix in self.namespaces: rule.namespaceURI = namespaceURI` → NoModificationAllowedErr unless equal
     if p ∈ (view s).keys ∧ n.uri ≠ u then (s, .err .noModificationAllowedErr)
     -- `if namespaceURI in list(self.namespaces.values()): rule.prefix = prefix`
-    else if u ∈ (view s).values then (s.set i (.ns (n.setPrefix p)), .ok none)
+    else if u ∈ (view s).values then
+      if prefixTaken s i p then (s, .err .noModificationAllowedErr)
+      else (s.set i (.ns (n.setPrefix p)), .ok none)
     else (s, .ok none)
 
 /-- `del sheet.namespaces[p]` (`util.py:773-781`) -/
@@ -523,7 +550,9 @@ def step (s : Sheet) : Op → Sheet × Outcome
     | .ok s' => (s', .ok none)
     | .error e => (s, .err e)
   | .setPrefix i q => match s[i]? with
-    | some (.ns n) => (s.set i (.ns (n.setPrefix q)), .ok none)
+    | some (.ns n) =>
+      if prefixTaken s i q then (s, .err .noModificationAllowedErr)
+      else (s.set i (.ns (n.setPrefix q)), .ok none)
     | _ => (s, .err .badTarget)
   | .setSelText i sels => match s[i]? with
     | some (.style _) =>
